@@ -10,11 +10,11 @@ QUICK_SHARDS = 8
 THOROUGH_SHARDS = 16
 
 
-def native(prop, spec, tier, seed, v, binname=None, hooks=True, lane="native", extra=(), release_checked=False):
+def native(prop, spec, tier, seed, v, binname=None, hooks=True, lane="native", extra=(), release_checked=False, release_unchecked=False):
     binname = binname or prop.lower()
     if prop == "C01":
         n, unparsed = gen_constants.generate()
-    binpath = C.build_monitor(binname, hooks=hooks, release_checked=release_checked)
+    binpath = C.build_monitor(binname, hooks=hooks, release_checked=release_checked, release_unchecked=release_unchecked)
     nsh = QUICK_SHARDS if tier == "quick" else THOROUGH_SHARDS
     extra = list(extra)
     if tier == "thorough" and spec.get("thorough_scale") and not os.environ.get("VERIF_SCALE"):
@@ -31,6 +31,14 @@ def native_both_profiles(prop, spec, tier, seed, v):
     debug-only branch shows in exactly one of them)."""
     native(prop, spec, tier, seed, v, lane="native")
     native(prop, spec, tier, seed + 1000003, v, lane="release-checked", release_checked=True)
+
+
+def native_three_profiles(prop, spec, tier, seed, v):
+    """as native_both_profiles plus a release build with dimension checking compiled OUT; only for monitors that detect at
+    run time whether checking is compiled in and skip the clauses that need it (C14: a correctly dimensioned setter
+    argument must be accepted in every build)."""
+    native_both_profiles(prop, spec, tier, seed, v)
+    native(prop, spec, tier, seed + 2000003, v, lane="release-unchecked", release_unchecked=True)
 
 
 def on_crash(prop, spec, tier, seed, e):
@@ -55,17 +63,17 @@ def replay(prop, spec, path):
     ex = r.get("example") or {}
     print(json.dumps(r, indent=1))
     lane = ex.get("lane", "native")
-    if lane not in ("native", "poison", "release-checked"):
+    if lane not in ("native", "poison", "release-checked", "release-unchecked", "poison-release"):
         print(f"(lane {lane}: re-run ./check {prop} --tier {r.get('tier','quick')} with VERIF_SEED={r.get('seed',1)} to reproduce)")
         return 0
     if prop == "C01":
         gen_constants.generate()
     try:
-        binpath = C.build_monitor(spec.get("bin", prop.lower()), release_checked=(lane == "release-checked"))
+        binpath = C.build_monitor(spec.get("bin", prop.lower()), release_checked=(lane in ("release-checked", "poison-release")), release_unchecked=(lane == "release-unchecked"))
     except C.Inconclusive as e:
         print(e)
         return 2
-    mseed = r["seed"] + (1000003 if lane == "release-checked" else 0)  # the second lane runs at a shifted seed
+    mseed = r["seed"] + (1000003 if lane in ("release-checked", "poison-release") else 2000003 if lane == "release-unchecked" else 0)  # the second lane runs at a shifted seed
     cmd = [binpath, "--seed", str(mseed), "--tier", r["tier"], "--only", f"{ex.get('sub','')}:{ex.get('case',0)}"]
     rc, out, err, to = C.run(cmd, env=C.base_env(), timeout=600)
     sys.stdout.write(err)
